@@ -418,6 +418,30 @@ pub fn c12(r: &mut Rng, sz: &Sizes, out: &mut Vec<String>) {
         out.push(format!("ticks_inferv\t{}", crate::wire::hex(t.as_bytes())));
         out.push(format!("ticks_infer\t{}", crate::wire::hex(t.as_bytes())));
     }
+    // nesting families, one per branch of the array classification: homogeneous arrays, one-element
+    // arrays of objects, arrays of equal objects, arrays of two equal arrays
+    for k in 1..=24 {
+        let mut hom = String::from("1");
+        let mut items = String::from("{\"id\":1}");
+        let mut objs = String::from("1");
+        for _ in 0..k {
+            hom = format!("[{hom}]");
+            items = format!("{{\"items\":[{items}]}}");
+            objs = format!("[{{\"k\":{objs}}},{{\"k\":1}}]");
+        }
+        for t in [&hom, &items, &objs] {
+            out.push(format!("ticks_inferv\t{}", crate::wire::hex(t.as_bytes())));
+            out.push(format!("ticks_infer\t{}", crate::wire::hex(t.as_bytes())));
+        }
+    }
+    for k in 1..=9 {
+        let mut dbl = String::from("1");
+        for _ in 0..k {
+            dbl = format!("[{dbl},{dbl}]");
+        }
+        out.push(format!("ticks_inferv\t{}", crate::wire::hex(dbl.as_bytes())));
+        out.push(format!("ticks_infer\t{}", crate::wire::hex(dbl.as_bytes())));
+    }
     let big = sz.histories > 10_000;
     for fam in ["infer_depth", "inferv_depth"] {
         for n in 1..=20 {
@@ -543,6 +567,24 @@ pub fn text_corpus(r: &mut Rng, sz: &Sizes, thorough: bool) -> Vec<String> {
         }
         texts.push(t);
         texts.push("[".repeat(n));
+        // asymmetric mixes of the two bracket kinds
+        let (a, b) = (n * 2 / 3, n - n * 2 / 3);
+        texts.push(format!("{}{}1{}{}", "[".repeat(a), "{\"a\":".repeat(b), "}".repeat(b), "]".repeat(a)));
+        texts.push(format!("{}{}1{}{}", "{\"a\":".repeat(a), "[".repeat(b), "]".repeat(b), "}".repeat(a)));
+    }
+    // many siblings: brackets that are opened *and closed* do not count towards the nesting limit
+    for n in [100usize, 257, 300, 700] {
+        for elem in ["[1]", "{\"a\":1}", "{\"id\":7,\"tags\":[\"a\",\"b\"]}", "[]", "{}", "[[1],{\"k\":[]}]"] {
+            let body = vec![elem; n].join(",");
+            texts.push(format!("[{body}]"));
+            texts.push(format!("{{\"k\":[{body}],\"z\":{{\"deep\":[[[1]]]}}}}"));
+        }
+        // siblings first, then real nesting close to the limit
+        let sib = vec!["[]"; n].join(",");
+        for depth in [200usize, 254, 255, 256] {
+            texts.push(format!("[{sib},{}1{}]", "[".repeat(depth), "]".repeat(depth)));
+            texts.push(format!("[{}1{},{sib}]", "[".repeat(depth), "]".repeat(depth)));
+        }
     }
     texts
 }
@@ -617,6 +659,17 @@ pub fn c07(r: &mut Rng, sz: &Sizes, out: &mut Vec<String>) {
     ];
     for (a, b) in forms {
         out.push(format!("p_c07\t{}\t{}\t!ok", crate::wire::hex(a.as_bytes()), crate::wire::hex(b.as_bytes())));
+    }
+    // the number of repetitions of same-shaped elements, small and large
+    for elem in ["1", "[1]", "{\"a\":1}", "{\"id\":7,\"tags\":[\"a\",\"b\"]}", "[[],[]]", "{\"k\":{\"m\":[1,\"x\"]}}"] {
+        for n in [2usize, 3, 50, 257, 300, 1000] {
+            let one = format!("[{elem}]");
+            let many = format!("[{}]", vec![elem; n].join(","));
+            out.push(format!("p_c07\t{}\t{}\t!ok", crate::wire::hex(one.as_bytes()), crate::wire::hex(many.as_bytes())));
+            let one = format!("{{\"list\":[{elem}],\"n\":1}}");
+            let many = format!("{{\"n\":2,\"list\":[{}]}}", vec![elem; n].join(" , "));
+            out.push(format!("p_c07\t{}\t{}\t!ok", crate::wire::hex(one.as_bytes()), crate::wire::hex(many.as_bytes())));
+        }
     }
 }
 
@@ -773,6 +826,18 @@ fn source_sets(r: &mut Rng, n: usize) -> Vec<Vec<String>> {
         vec!["{\"type\":1}".to_string()],
         vec!["1".to_string()],
         vec!["null".to_string(), "\"s\"".to_string()],
+        // a member of every kind that later (or earlier) elements of an array of objects lack
+        vec!["[{\"id\":1,\"pos\":[1.5,\"north\"]},{\"id\":2}]".to_string()],
+        vec!["[{\"id\":1},{\"id\":2,\"pos\":[1.5,\"north\"]}]".to_string()],
+        vec!["[{\"id\":1,\"tags\":[\"a\"]},{\"id\":2}]".to_string()],
+        vec!["[{\"id\":1,\"o\":{\"k\":1}},{\"id\":2}]".to_string()],
+        vec!["[{\"id\":1,\"s\":\"x\",\"b\":true,\"n\":2},{\"id\":2}]".to_string()],
+        vec!["{\"route\":{\"stops\":[{\"name\":\"a\",\"at\":[10,\"km\",true]},{\"name\":\"b\",\"at\":[20,\"km\",false]},{\"name\":\"c\"}]}}".to_string()],
+        vec!["{\"p\":{\"a\":{\"k\":1}},\"q\":{\"a\":{\"k\":1}}}".to_string(), "{\"p\":{\"a\":{\"k\":2}},\"q\":{\"a\":null}}".to_string()],
+        vec!["{\"x\":{\"b\":1},\"y\":{\"b\":2}}".to_string(), "{\"x\":null,\"y\":{\"b\":3}}".to_string()],
+        vec!["{\"entry\":[\"id\",[{\"k\":1},{\"k\":2}]]}".to_string()],
+        vec!["{\"entry\":[1,[\"a\",{\"k\":true}]]}".to_string()],
+        vec!["{\"a\":[[{\"k\":1}],[{\"k\":2}]],\"t\":[1,[[{\"m\":\"x\"}]]]}".to_string()],
     ];
     for i in 0..n {
         let h = if i % 2 == 0 { clean_history(r) } else { rand_history(r, &keys) };
